@@ -168,31 +168,19 @@ class DispatchTrip(VehicleState):
             # request exists: pick up the trip and enter a ServicingTrip state
             route = sim.road_network.route(request.position, request.destination_position)
             # apply next state
-            # generate the data to describe the trip for this request
-            # where the pickup phase is currently happening + doesn't need to be added to the trip plan
-            trip_plan: Tuple[Tuple[RequestId, TripPhase], ...] = ((request.id, TripPhase.DROPOFF),)
             departure_time = sim.sim_time
 
-            # create the state (pooling, or, standard servicing trip, depending on the sitch)
-            pooling_trip = vehicle.driver_state.allows_pooling and request.allows_pooling
-            pooling_next_state = (
-                ServicingPoolingTrip.build(
-                    vehicle_id=vehicle.id,
-                    trip_plan=trip_plan,
-                    boarded_requests=immutables.Map({request.id: request}),
-                    departure_times=immutables.Map({request.id: departure_time}),
-                    routes=(route,),
-                    num_passengers=len(request.passengers),
-                )
-                if pooling_trip
-                else ServicingTrip.build(
-                    vehicle_id=vehicle.id,
-                    request=request,
-                    departure_time=departure_time,
-                    route=route,
-                )
+            # a DispatchTrip carries exactly one request, and ServicingPoolingTrip only accepts a
+            # DispatchPoolingTrip as its predecessor: a pooling-enabled request reached this way is
+            # served as a standard trip (handing a ServicingPoolingTrip over here was always
+            # refused, which left the vehicle waiting at the pickup until the request expired)
+            next_state = ServicingTrip.build(
+                vehicle_id=vehicle.id,
+                request=request,
+                departure_time=departure_time,
+                route=route,
             )
-            return None, pooling_next_state
+            return None, next_state
 
     def _perform_update(
         self, sim: SimulationState, env: Environment
